@@ -11,7 +11,7 @@ import math
 from .. import refenc as R
 from .. import world as W
 from ..fakes import StepClock
-from ..util import substream, EventLog, Stats
+from ..util import substream, EventLog, Stats, crc32
 from ..shrink import ddmin_list, Budget
 
 NAME = "r2"
@@ -544,7 +544,7 @@ def execute(sc, keep_log=False):
         prev_keys = keysets[0]
         lab = ",".join(sorted(set(call_labels))) or "upd"
         labels_run.append(lab)
-        log.add(ci, now, len(call["a"]), len(call["c"]), sorted(keysets[0]), lab)
+        log.add(ci, now, len(call["a"]), len(call["c"]), sorted(keysets[0]), lab, crc32(repr(sorted(na.items()))))
         stats.states.add(hash_state(tables[0]))
     stats.c["evaluations"] += n_calls
     stats.c["seam_steps"] += n_calls * 2
